@@ -242,6 +242,18 @@ class C09(Check):
         for js, data in LOGICAL_UNIONS:
             for x in data:
                 yield dict(base, schema=js, datum=x)
+        # hints are full names: a namespaced branch that shares its unqualified name with a later null-namespace branch
+        # must not capture the hint meant for the latter (records, enums, fixed; raw and parsed)
+        pts = [{"type": "record", "name": "v1.Point", "fields": [{"name": "x", "type": "int"}, {"name": "y", "type": "int"}]},
+               {"type": "record", "name": "Point", "fields": [{"name": "x", "type": "int"}, {"name": "y", "type": "int"}, {"name": "z", "type": "int", "default": 0}]}]
+        ens = ["null", {"type": "enum", "name": "ns.Level", "symbols": ["LOW", "HIGH"]}, {"type": "enum", "name": "Level", "symbols": ["HIGH", "LOW"]},
+               {"type": "fixed", "name": "deep.ns.Id", "size": 2}, {"type": "fixed", "name": "Id", "size": 2}]
+        for parsed in (False, True):
+            for dv in (("Point", {"x": 1, "y": 2, "z": 3}), ("v1.Point", {"x": 4, "y": 5}), ("Point", {"x": 6, "y": 7}), {"x": 1, "y": 2, "z": 3, "-type": "Point"}):
+                yield dict(base, schema=pts, datum=dv, parsed=parsed)
+            for dv in (("Level", "HIGH"), ("ns.Level", "HIGH"), ("Id", b"ab"), ("deep.ns.Id", b"cd"), ("Level", "LOW")):
+                for opts in (0, 1):
+                    yield dict(base, schema=ens, datum=dv, parsed=parsed, opts=opts)
         # disable_tuple_notation: a 2-tuple that looks like a hint is array data
         sa = ["string", {"type": "array", "items": "string"}]
         yield dict(base, schema=sa, datum=("string", "x"), tuple_notation=False)
